@@ -61,7 +61,13 @@ func (fr *Frame) callValue(st *State, fnv Value, ft types.Type, args []Value, in
 		fn := s.Fn.Fn.(*ssa.Function)
 		return fr.callStatic(st, fn, s.Fn.Bind, args, in)
 	}
-	// unknown function value: contract keyed by its named type
+	// unknown function value: every call is counted in the ghost component G.calls (indexed
+	// by the function value), then treated through the contract keyed by its named type
+	{
+		srt := sArr(sRef, sBV(64))
+		h := r.heap.get(st, "G.calls", srt)
+		r.heap.set(st, "G.calls", srt, sto(h, s.T, "(bvadd "+sel(h, s.T)+" #x0000000000000001)"), s.T)
+	}
 	name := "type:" + ifaceName(ft)
 	sig := ft.Underlying().(*types.Signature)
 	fr.safety(st, "safe.nilfunc", in, not(eq(s.T, refLit(0))), "call of nil function")
@@ -653,7 +659,10 @@ func (fr *Frame) callContract(st *State, ct *FuncContract, fn *ssa.Function, sig
 	// 4. postconditions (components read here are havocked lazily at fresh refs)
 	env.post = post
 	for _, cl := range ct.Ensures {
-		if !r.active(cl.Tags) {
+		// every clause of the callee's contract is available to the caller, whatever property
+		// it is tagged with: each clause is discharged by the check of the properties it names
+		// (fault-mode runs keep to the fault-mode clauses: the others describe the exact model)
+		if r.faults && !r.active(cl.Tags) {
 			continue
 		}
 		g, err := fr.evalBoolEnv(cl.E, env)
@@ -775,14 +784,7 @@ func (p *postState) read(comp, srt, ref string) string {
 	}
 	// a reference computed before the call denotes an object that existed before the call
 	// (Go has no dangling or forged pointers): its post-call value is the base version
-	pre := true
-	for _, t := range tokens(ref) {
-		if i, ok := r.ctx.idx[t]; ok && i >= p.mark {
-			pre = false
-			break
-		}
-	}
-	if pre {
+	if r.ctx.olderThan(ref, p.mark) {
 		return sel(r.heap.get(p.st, comp, srt), ref)
 	}
 	if p.fresh == nil {
